@@ -269,6 +269,23 @@ func evalMisc(x, y fr.Element) error {
 	if fm != reg {
 		return fmt.Errorf("fromMontGeneric differs from FromMont for value %s", xv.Text(16))
 	}
+	// conversion of integers INTO Montgomery form: any integer (negative, above r) is reduced; the receiver holds an earlier value
+	for k, v := range []*big.Int{new(big.Int).Set(xv), new(big.Int).Sub(xv, ref.R), new(big.Int).Add(xv, ref.R), new(big.Int).Neg(xv), new(big.Int).Neg(new(big.Int).Add(xv, ref.R))} {
+		z := ys
+		vCopy := new(big.Int).Set(v)
+		z.SetBigInt(v)
+		if v.Cmp(vCopy) != 0 {
+			return fmt.Errorf("SetBigInt modified its argument %s", vCopy.Text(16))
+		}
+		if err := checkResult(fmt.Sprintf("SetBigInt#%d", k), &z, new(big.Int).Mod(v, ref.R), &x, &y); err != nil {
+			return err
+		}
+	}
+	var viaString fr.Element
+	viaString.SetString(xs.String())
+	if viaString != xs {
+		return fmt.Errorf("SetString(x.String()) != x for value %s (String() = %q)", xv.Text(16), xs.String())
+	}
 	a, b := xs, ys
 	fr.Butterfly(&a, &b)
 	if err := checkResult("Butterfly.a", &a, ref.FrAdd(xv, yv), &x, &y); err != nil {
@@ -459,6 +476,35 @@ func genC15(t *rapid.T) c15Case {
 				s = "0"
 			}
 			c.Vec = append(c.Vec, s)
+		}
+		if n >= 2 && rapid.IntRange(0, 3).Draw(t, "tie") == 0 { // the non-zero entries multiply to exactly 1 (or -1): [.., x, .., 1/prod]
+			prod := big.NewInt(1)
+			last := -1
+			for i, h := range c.Vec {
+				raw := hx.BigHex(h)
+				raw.Mod(raw, ref.R)
+				if raw.Sign() != 0 {
+					last = i
+				}
+			}
+			for i, h := range c.Vec {
+				if i == last {
+					continue
+				}
+				raw := hx.BigHex(h)
+				raw.Mod(raw, ref.R)
+				if raw.Sign() != 0 { // value = raw * 2^-256
+					prod = ref.FrMul(prod, ref.FrMul(raw, ref.FrInv(bigR256)))
+				}
+			}
+			if last >= 0 {
+				want := ref.FrInv(prod)
+				if rapid.Bool().Draw(t, "tie_minus") {
+					want = ref.FrNeg(want)
+				}
+				e := toRaw(want)
+				c.Vec[last] = rawHex(&e)
+			}
 		}
 	case "mulByConstant":
 		c.C = rapid.IntRange(0, 255).Draw(t, "c")
